@@ -901,6 +901,8 @@ func execC2(op string, a []string) string {
 	case "lru.lin":
 		// the concurrent execution took place when the request was generated; the Lean side decides linearizability
 		return "bool 1"
+	case "lru.stress":
+		return lruStress(atoi(a[0]), atoi(a[1]), atoi(a[2]), atoi(a[3]), uint64(atoi(a[4])), atoi(a[5]), atoi(a[6]))
 	}
 	c := bxLrus[atoi(a[0])]
 	if c == nil {
@@ -923,6 +925,83 @@ func execC2(op string, a []string) string {
 		return "ok " + hx(cy[:])
 	}
 	return "bad-op"
+}
+
+// lruStress hammers a fresh cache from nthreads goroutines (Get and Put over a key universe slightly larger than the
+// capacity, so that hits on the least recently used key race with evicting Puts all the time), then audits it
+// sequentially: naudit >= capacity fresh keys are put one after the other and every key is looked up.  For a correct LRU
+// the audit's outcome does not depend on what happened before (exactly the last `capacity` audit keys are present).
+func lruStress(capacity, nkeys, nthreads, nops int, seed uint64, naudit, nvals int) (reply string) {
+	defer func() {
+		if e := recover(); e != nil {
+			reply = "panic runtime"
+		}
+	}()
+	c := cache.NewLRUCache(capacity)
+	keys := make([]curve.CompressedEdwardsY, nkeys)
+	for i := range keys {
+		keys[i][0] = byte(i + 1)
+	}
+	vals := linPool()
+	if nvals > len(vals) {
+		return "bad-op"
+	}
+	vals = vals[:nvals]
+	idx := map[*ed25519.ExpandedPublicKey]int{}
+	for i, v := range vals {
+		idx[v] = i
+	}
+	var wg sync.WaitGroup
+	var crashed atomic.Bool
+	var start atomic.Bool
+	for t := 0; t < nthreads; t++ {
+		wg.Add(1)
+		go func(t int) {
+			defer wg.Done()
+			defer func() {
+				if e := recover(); e != nil {
+					crashed.Store(true)
+				}
+			}()
+			r := &Rng{s: seed*1000003 + uint64(t)}
+			for !start.Load() {
+				runtime.Gosched()
+			}
+			for i := 0; i < nops/nthreads; i++ {
+				k := r.Intn(nkeys)
+				if r.Intn(3) == 0 {
+					c.Put(&keys[k], vals[r.Intn(len(vals))])
+				} else {
+					c.Get(&keys[k])
+				}
+			}
+		}(t)
+	}
+	start.Store(true)
+	wg.Wait()
+	if crashed.Load() {
+		return "panic runtime"
+	}
+	akeys := make([]curve.CompressedEdwardsY, naudit)
+	for i := range akeys {
+		akeys[i][0] = byte(0xA0 + i)
+		c.Put(&akeys[i], vals[i%len(vals)])
+	}
+	toks := []string{"ok"}
+	look := func(k *curve.CompressedEdwardsY) {
+		if x := c.Get(k); x == nil {
+			toks = append(toks, "-")
+		} else {
+			toks = append(toks, itoa(idx[x]))
+		}
+	}
+	for i := range akeys {
+		look(&akeys[i])
+	}
+	for i := range keys {
+		look(&keys[i])
+	}
+	return strings.Join(toks, " ")
 }
 
 type linEv struct {
@@ -1113,6 +1192,12 @@ func genC2(g *Gen) {
 		}
 		for k := 0; k < nk && !g.Full(); k++ {
 			g.Emit("final.get", "C2", "lru.get", itoa(id), hx(pks[k]))
+		}
+		// ---- concurrent stress + sequential audit
+		for i := 0; i < 6 && !g.Full(); i++ {
+			capacity := 1 + g.Intn(5)
+			g.Emit("stress", "C2", "lru.stress", itoa(capacity), itoa(capacity+1+g.Intn(3)), itoa(2+g.Intn(7)), itoa(4000+g.Intn(20000)),
+				itoa(g.Intn(1<<30)), itoa(capacity+1+g.Intn(3)), itoa(3))
 		}
 		// ---- a few recorded concurrent histories
 		for i := 0; i < 12 && !g.Full(); i++ {
